@@ -633,6 +633,19 @@ fn run_case(line: &str) -> Option<String> {
             let b = unhex(t.get(4)?)?;
             Some(run_scan(be, cl, al, &b))
         }
+        "scanat" => {
+            // scanner entered with `skip` bytes already consumed and uncommitted
+            let be: u8 = t.get(1)?.parse().ok()?;
+            let cl: u8 = t.get(2)?.parse().ok()?;
+            let skip: usize = t.get(3)?.parse().ok()?;
+            let b = unhex(t.get(4)?)?;
+            let arena = mem::ByteArena::new(&b, mem::Place::EndGuard, 0);
+            counters_reset();
+            Some(match httparse::_verif::scan_after(be, cl, arena.bytes(), skip) {
+                Some(n) => format!("{} {}", n, counters_str()),
+                None => "NA".to_string(),
+            })
+        }
         "swar" => {
             let cl: u8 = t.get(1)?.parse().ok()?;
             let b = unhex(t.get(2)?)?;
